@@ -738,6 +738,12 @@ pub fn coordinator(check: &dyn Check, opts: &RunOpts) -> i32 {
     if !lanes_json.is_empty() {
         coverage["extra_lanes"] = Value::Object(lanes_json);
     }
+    // results of lanes run by the ./check script itself (e.g. the Miri lane of C11)
+    if let Ok(extra) = std::env::var("KV_EXTRA_EVIDENCE") {
+        if let Ok(v) = serde_json::from_str::<Value>(&extra) {
+            coverage["external_lanes"] = v;
+        }
+    }
     let verdict = if !violation_lines.is_empty() {
         "violated"
     } else if !unmet.is_empty() || !harness_errors.is_empty() || main.evals == 0 {
